@@ -257,8 +257,14 @@ func (h *histRun) step(r roundIn) {
 			scriptedRound = true
 		}
 	}
-	h.rounds = append(h.rounds, fmt.Sprintf("{| rd_inst := %s; rd_seq := %d; rd_prev := %s; rd_target := %s; rd_scripted := %s; rd_retire := %s; rd_aos := %s; rd_valid := %s; rd_refused := %s; rd_out := %s; rd_rep := %s; rd_retirement := %s; rd_reports := %s |}",
-		coqNat(r.Inst), r.Seq, prevTerm, coqDefs(tgt), coqBool(scriptedRound), coqBool(r.Retire), coqList(obsTerms), coqList(validTerms), coqBool(honestErr != ""), outTerm, repKind, repRet, coqList(repTerms)))
+	// byte level: the previous outcome bytes handed to Outcome and the bytes it returned (kept only for small rounds,
+	// where the model reproduces Go's sort of numerically tied decimals exactly)
+	bytesTerm := "None"
+	if oerr == nil && !opanic && len(prev)+len(outBytes) < 6000 {
+		bytesTerm = fmt.Sprintf("(Some (%s, %s))", coqHex(prev), coqHex(outBytes))
+	}
+	h.rounds = append(h.rounds, fmt.Sprintf("{| rd_inst := %s; rd_seq := %d; rd_prev := %s; rd_target := %s; rd_scripted := %s; rd_retire := %s; rd_aos := %s; rd_valid := %s; rd_refused := %s; rd_out := %s; rd_bytes := %s; rd_rep := %s; rd_retirement := %s; rd_reports := %s |}",
+		coqNat(r.Inst), r.Seq, prevTerm, coqDefs(tgt), coqBool(scriptedRound), coqBool(r.Retire), coqList(obsTerms), coqList(validTerms), coqBool(honestErr != ""), outTerm, bytesTerm, repKind, repRet, coqList(repTerms)))
 	h.outs = append(h.outs, rec)
 }
 
